@@ -216,7 +216,11 @@ def build(u_, rad=False):
     for k, v in u_['props'].items():
         if k == 'zz' or k == 'text':
             continue
-        if k in ('color', 'linewidth', 'symbol', 'symsize'):
+        if k in ('linewidth', 'symsize', 'symthick'):
+            visual[k] = int(v)            # a number, as a caller gives it (0 is a value)
+        elif k == 'usetex':
+            visual[k] = (v == 'True')
+        elif k in ('color', 'symbol'):
             visual[k] = v
         else:
             meta[k] = v
@@ -389,7 +393,7 @@ def trace_validation(ctx):
             if rnd.random() < 0.4:
                 meta['include'] = rnd.choice([True, False])
             if rnd.random() < 0.4:
-                meta['label'] = rnd.choice(['lab', 'two words'])
+                meta['label'] = rnd.choice(['lab', 'two words', 'source #3', '#1'])
             if rnd.random() < 0.3:
                 meta['type'] = rnd.choice(['ann', 'reg'])
             kind = rnd.choice(['circle', 'ellipse', 'rectangle', 'cannulus', 'polygon', 'line', 'point', 'text'])
@@ -397,9 +401,9 @@ def trace_validation(ctx):
             if kind == 'circle':
                 regs.append(R.CircleSkyRegion(c, s(), **kw))
             elif kind == 'ellipse':
-                regs.append(R.EllipseSkyRegion(c, s(), s(), angle=rnd.uniform(0, 180) * u.deg, **kw))
+                regs.append(R.EllipseSkyRegion(c, s(), s(), angle=rnd.uniform(-180, 360) * u.deg, **kw))
             elif kind == 'rectangle':
-                regs.append(R.RectangleSkyRegion(c, s(), s(), angle=rnd.uniform(0, 180) * u.deg, **kw))
+                regs.append(R.RectangleSkyRegion(c, s(), s(), angle=rnd.uniform(-180, 360) * u.deg, **kw))
             elif kind == 'cannulus':
                 r1 = s()
                 regs.append(R.CircleAnnulusSkyRegion(c, r1, r1 * 2, **kw))
